@@ -356,6 +356,7 @@ class GCPBatchExecutor(Executor):
             self.gcs_scratch_prefix,
             job,
             job.task,
+            job_options=task_options,
             code_file=self.code_file,
             array_uuid=array_uuid,
         )
@@ -428,6 +429,7 @@ class GCPBatchExecutor(Executor):
                 job.task,
                 args=args,
                 kwargs=kwargs,
+                job_options=task_options,
                 code_file=self.code_file,
             )
 
